@@ -48,7 +48,9 @@ TMessage ==
 TReply ==
   /\ Line.ev = "ApiReply"
   /\ IF phase = "test" /\ IsTestCall
-       THEN LET obs == IF Line.timeout THEN "hung" ELSE IF Line.st = Dst(case.event) THEN "ok" ELSE "fail"
+       THEN LET \* (a create that gets past DEPLOY goes on to CONFIGURE: its reply reports CONFIGURED)
+                dstObs == IF case.event = "DEPLOY" THEN "CONFIGURED" ELSE Dst(case.event)
+                obs == IF Line.timeout THEN "hung" ELSE IF Line.st = dstObs THEN "ok" ELSE "fail"
                 pred == Verdict(CTasks, CCrit, case.event, COut)
             IN /\ verdictObs' = obs
                /\ phase' = "post"
@@ -59,6 +61,8 @@ TReply ==
                            ~CAllCritOk => (IF case.call = "create" THEN Line.code # "OK" ELSE Line.st = "ERROR"),
                            <<Line.code, Line.st>>)
                     + Soft("NothingToCommand", CTasks = {} => obs = "ok", obs)
+                    \* DEPLOY: success or failure is known "in time" (the client's deadline is several deploy timeouts)
+                    + Soft("DeployInTime", case.event = "DEPLOY" => ~Line.timeout, obs)
                     + Soft("OnlyPresentCommanded", cmded \subseteq CClasses, cmded)
        ELSE UNCHANGED <<verdictObs, phase, nviol>>
   /\ UNCHANGED <<scn, case, cmded>>
